@@ -303,8 +303,13 @@ def rule_key(rep, prog, m, fn, cache_name, rule='R-KEY', enclosing=None):
     """memo `cache[key] = value`: inputs(value) subset of names(key); no hash()/id() in key"""
     q = fn._qualname
     singles = single_assignments(fn)
-    stores = [n for n in own_nodes(fn) if isinstance(n, ast.Assign) and isinstance(n.targets[0], ast.Subscript)
-              and ast.unparse(n.targets[0].value) == cache_name]
+    stores = []
+    for n in own_nodes(fn):
+        if isinstance(n, ast.Assign):
+            for t_ in n.targets:
+                if isinstance(t_, ast.Subscript) and ast.unparse(t_.value) == cache_name:
+                    # (a chained assignment `x = cache[key] = value` stores as well)
+                    stores.append(n if t_ is n.targets[0] else ast.copy_location(ast.Assign(targets=[t_], value=n.value), n))
     if not stores:
         raise AnalysisError('anchor vanished: no store into %s in %s' % (cache_name, q))
     scope_vars = set(func_params(fn))
@@ -370,76 +375,149 @@ def check_assembly(rep, prog, m):
     for n in hs:
         ok = isinstance(n.value, ast.UnaryOp) and isinstance(n.value.op, ast.USub) and isinstance(n.value.operand, ast.Call) and dotted(n.value.operand.func) == 'get_hess'
         rep.ob('R-SIGN', 'get_godambe hess', ok, ast.unparse(n)[:80], rel, n.lineno, what='observed information is minus the Hessian of the log-likelihood')
-    pairs = []
-    for n in own_nodes(g):
-        if isinstance(n, ast.Call) and dotted(n.func) in ('get_hess', 'get_grad'):
-            pairs.append((n, ast.unparse(n.args[0]), ast.unparse(n.args[1])))
-    for n, f, p in pairs:
-        ok = (f == 'func' and p == 'p0') or (f == 'log_func' and p in ('numpy.log(p0)', 'np.log(p0)'))
-        rep.ob('R-SPACE', 'get_godambe %s' % dotted(n.func), ok, 'differentiates %s at %s' % (f, p), rel, n.lineno,
+    # what get_godambe computes in the natural and in the log world, with and without just_hess: abstract execution (one symbolic
+    # iteration of the bootstrap loop; the nested likelihood wrappers are entered when they are called)
+    from sa import miniexec as mx
+    from sa import alpha as _alpha
+    known_ = _alpha.load_table().get('__params__', {}).get(m.rel)
+    known_ = set(known_) if known_ is not None else None
+    bad = {k: [] for k in ('space', 'args', 'switch', 'logf', 'func', 'ord', 'zip', 'norm', 'jterm', 'shape', 'G', 'ret')}
+
+    def dots(v):
+        c = mx.call_of(v, 'dot')
+        if c and len(c[0]) == 2:
+            return dots(c[0][0]) + dots(c[0][1])
+        rec = mx.method_call(v, 'dot')
+        if rec is not None and len(v.struct[2]) == 1:
+            return dots(rec) + dots(v.struct[2][0])
+        return [v]
+    n_worlds = 0
+    for log in (False, True):
+        for just_hess in (False, True):
+            it = mx.Interp(prog, m, known_functions=known_, symbolic_loops=True)
+            args = {'func_ex': mx.Sym('func_ex', truth=True), 'grid_pts': mx.Sym('grid_pts'), 'all_boot': mx.Sym('all_boot'), 'p0': mx.Sym('p0'), 'data': mx.Sym('data'), 'eps': mx.Sym('eps'),
+                    'log': log, 'just_hess': just_hess, 'boot_theta_adjusts': mx.Sym('boot_theta_adjusts', truth=True)}
+            try:
+                paths = it.run(g, args)
+            except mx.Undecidable as e:
+                raise AnalysisError('get_godambe is not recognised: %s' % e)
+            tagw = 'log=%s just_hess=%s' % (log, just_hess)
+            if len(paths) != 1 or paths[0][0][0] != 'return':
+                bad['ret'].append('%s: %d paths' % (tagw, len(paths)))
+                continue
+            n_worlds += 1
+            outcome, events, dec = paths[0]
+            want_f, want_p = ('log_func', 'numpy.log(p0)') if log else ('func', 'p0')
+            hs_ = [e for e in events if e[0] == 'call' and e[1] == 'get_hess']
+            gs_ = [e for e in events if e[0] == 'call' and e[1] == 'get_grad']
+            for e in hs_ + gs_:
+                b_ = {}
+                try:
+                    it.path = mx.Path([])
+                    b_ = it.bind(prog.func(GOD, e[1]), e[2], e[3])
+                except mx.Undecidable:
+                    pass
+                fobj, pobj = b_.get('func'), b_.get('p0')
+                if not (isinstance(fobj, mx.FuncRef) and fobj.name == want_f and mx.show(pobj).replace('np.', 'numpy.') == want_p):
+                    bad['space'].append('%s: %s differentiates %s at %s' % (tagw, e[1], mx.show(fobj), mx.show(pobj)))
+                exp_args = ['data'] if e[1] == 'get_hess' else ['Spectrum(boot)', 'theta_adjust']
+                if [mx.show(x) for x in (b_.get('args') or [])] != exp_args or mx.show(b_.get('eps')) != 'eps':
+                    bad['args'].append('%s: %s args=%s eps=%s' % (tagw, e[1], mx.show(b_.get('args')), mx.show(b_.get('eps'))))
+                # the wrapper that is differentiated, entered with symbolic arguments
+                if isinstance(fobj, mx.FuncRef) and fobj.node is not None:
+                    it3 = mx.Interp(prog, m, known_functions=known_)
+                    inner = it3.run_thunk(lambda fobj=fobj, it3=it3: it3.apply(fobj, [mx.Sym('q'), mx.Sym('D'), mx.Sym('ta')], {}), 'likelihood wrapper')
+                    for o3, ev3, d3 in inner:
+                        ll = [x for x in ev3 if x[0] == 'call' and x[1] == 'Inference.ll']
+                        okll = o3[0] == 'return' and len(ll) == 1 and len(ll[0][2]) == 2 and mx.show(ll[0][2][1]) == 'D'
+                        if okll:
+                            fac = mx.factors(ll[0][2][0], '*')
+                            par = 'numpy.exp(q)' if log else 'q'
+                            models = [f for f in fac if mx.show(f) != 'ta']
+                            okm_ = len(fac) == 2 and len(models) == 1
+                            if okm_:
+                                mt = mx.show(models[0]).replace('np.', 'numpy.')
+                                key_ = '(func_ex, tuple(%s), tuple(data.sample_sizes), tuple(grid_pts))' % par
+                                okm_ = mt in ('cache[%s]' % key_, 'cache[%s]' % key_[1:-1], 'func_ex(%s, data.sample_sizes, grid_pts)' % par) or mt.startswith('cache.get(%s' % key_)
+                            okll = okm_
+                        if not okll:
+                            bad['logf' if log else 'func'].append('%s: wrapper evaluates %s' % (tagw, mx.show(ll[0][2][0])[:90] if ll else o3))
+            if len(hs_) != 1:
+                bad['space'].append('%s: %d get_hess calls' % (tagw, len(hs_)))
+                continue
+            hess_call = hs_[0]
+            v = outcome[1]
+            if just_hess:
+                ok_ = isinstance(v, mx.Sym) and v.struct and v.struct[0] == 'binop' and v.struct[1] == '-' and v.struct[2] == 0 and mx.call_of(v.struct[3], 'get_hess') is not None
+                if not ok_ or gs_:
+                    bad['ret'].append('%s: returns %s' % (tagw, mx.show(v)[:60]))
+                continue
+            if not (isinstance(v, tuple) and len(v) == 4):
+                bad['ret'].append('%s: returns %s' % (tagw, mx.show(v)[:60]))
+                continue
+            G_, H_, J_, cU_ = v
+            if not (isinstance(H_, mx.Sym) and H_.struct and H_.struct[:3] == ('binop', '-', 0) and mx.call_of(H_.struct[3], 'get_hess') is not None):
+                bad['ret'].append('%s: second result is not minus the Hessian' % tagw)
+            # (the same gradient written out more than once is one gradient)
+            distinct_g = {(tuple(mx.show(a) for a in e[2]), tuple(sorted((k_, mx.show(v_)) for k_, v_ in e[3].items()))) for e in gs_}
+            if len(distinct_g) != 1:
+                bad['ord'].append('%s: %d different get_grad calls in one iteration' % (tagw, len(distinct_g)))
+                continue
+            lp_ = [e for e in events if e[0] == 'loop']
+            if len(lp_) != 1 or 'zip(all_boot, boot_theta_adjusts)' not in lp_[0][1]:
+                bad['zip'].append('%s: loop over %s' % (tagw, [e[1] for e in lp_]))
+            for nm_, val in (('J', J_), ('cU', cU_)):
+                st_ = val.struct if isinstance(val, mx.Sym) else None
+                if not (st_ and st_[0] == 'binop' and st_[1] == '/' and mx.show(st_[3]) == 'len(all_boot)'):
+                    bad['norm'].append('%s: %s = %s' % (tagw, nm_, mx.show(val)[:70]))
+                    continue
+                terms = mx.factors(st_[2], '+')
+                zeros_ = [t_ for t_ in terms if mx.call_of(t_, 'zeros') is not None]
+                rest = [t_ for t_ in terms if t_ not in zeros_]
+                if len(zeros_) != 1 or len(rest) != 1:
+                    bad['ord'].append('%s: %s accumulates %s' % (tagw, nm_, [mx.show(t_)[:40] for t_ in terms]))
+                    continue
+                shape_ = [mx.show(x) for x in (mx.call_of(zeros_[0], 'zeros')[0][0] if mx.call_of(zeros_[0], 'zeros')[0] else [])]
+                if nm_ == 'J':
+                    oc = mx.call_of(rest[0], 'outer')
+                    if not (oc and len(oc[0]) == 2 and mx.show(oc[0][0]) == mx.show(oc[0][1]) and mx.call_of(oc[0][0], 'get_grad') is not None):
+                        bad['jterm'].append('%s: J accumulates %s' % (tagw, mx.show(rest[0])[:70]))
+                else:
+                    if mx.call_of(rest[0], 'get_grad') is None:
+                        bad['ord'].append('%s: cU accumulates %s' % (tagw, mx.show(rest[0])[:70]))
+                    if shape_ != ['len(p0)', '1']:
+                        bad['shape'].append('%s: cU allocated %s' % (tagw, shape_))
+            ds = dots(G_)
+            okG = len(ds) == 3 and mx.show(ds[0]) == mx.show(ds[2]) == mx.show(H_) and mx.call_of(ds[1], 'inv') is not None and mx.show(mx.call_of(ds[1], 'inv')[0][0]) == mx.show(J_)
+            if not okG:
+                bad['G'].append('%s: G = %s' % (tagw, ' . '.join(mx.show(x)[:30] for x in ds)))
+    if n_worlds < 4:
+        bad['ret'].append('only %d of 4 worlds executed' % n_worlds)
+
+    def fmt(k, okmsg):
+        return '; '.join(sorted(set(bad[k]))[:2]) if bad[k] else okmsg
+    for fname in ('get_hess', 'get_grad'):
+        rep.ob('R-SPACE', 'get_godambe %s' % fname, not [b for b in bad['space'] if fname in b], fmt('space', 'differentiates func at p0, or log_func at log(p0)'), rel, g.lineno,
                what='function and expansion point are in the same parameter space')
-        kw = {k.arg: ast.unparse(k.value) for k in n.keywords}
-        exp_args = '[data]' if dotted(n.func) == 'get_hess' else '[boot, theta_adjust]'
-        rep.ob('R-ARGS', 'get_godambe %s' % dotted(n.func), kw.get('args') == exp_args and ast.unparse(n.args[2]) == 'eps', 'args=%s eps=%s' % (kw.get('args'), ast.unparse(n.args[2])),
-               rel, n.lineno, what='data/bootstrap and theta adjustment reach the likelihood')
-    # world check: the `if not log` arms pick matching pairs
-    for n in own_nodes(g):
-        if isinstance(n, ast.If) and ast.unparse(n.test) == 'not log':
-            tb, eb = ast.unparse(n.body[0]), ast.unparse(n.orelse[0]) if n.orelse else ''
-            ok = 'log_func' not in tb and 'log_func' in eb
-            rep.ob('R-SPACE', 'get_godambe log switch', ok, 'natural arm: %s | log arm: %s' % (tb[:50], eb[:60]), rel, n.lineno, what='log switch selects the log wrapper only in log mode')
-    lf = prog.func(GOD, 'get_godambe.log_func')
-    r = [n for n in own_nodes(lf) if isinstance(n, ast.Return)]
-    ok = len(r) == 1 and ast.unparse(r[0].value) in ('func(numpy.exp(logparams), data, theta_adjust)', 'func(np.exp(logparams), data, theta_adjust)')
-    rep.ob('R-SPACE', 'get_godambe.log_func', ok, ast.unparse(r[0].value) if r else '', rel, lf.lineno, what='log wrapper exponentiates and forwards data and theta_adjust')
+        rep.ob('R-ARGS', 'get_godambe %s' % fname, not [b for b in bad['args'] if fname in b], fmt('args', 'args=%s eps=eps' % ('[data]' if fname == 'get_hess' else '[Spectrum(boot), theta_adjust]')), rel, g.lineno,
+               what='data/bootstrap and theta adjustment reach the likelihood')
+    rep.ob('R-SPACE', 'get_godambe log switch', not bad['space'], fmt('space', 'the log wrapper is differentiated exactly in log mode'), rel, g.lineno, what='log switch selects the log wrapper only in log mode')
+    rep.ob('R-SPACE', 'get_godambe.log_func', not bad['logf'], fmt('logf', 'log wrapper evaluates the likelihood at exp(parameters) with the same data and theta adjustment'), rel, g.lineno,
+           what='log wrapper exponentiates and forwards data and theta_adjust')
     fu = prog.func(GOD, 'get_godambe.func')
-    r = [n for n in own_nodes(fu) if isinstance(n, ast.Return)]
-    fsd = single_assignments(fu).get('fs')
-    ok = len(r) == 1 and ast.unparse(r[0].value) == 'Inference.ll(fs, data)' and fsd is not None and ast.unparse(fsd) == 'theta_adjust * cache[key]'
-    rep.ob('R-FLOW', 'get_godambe.func', ok, 'fs = %s; return %s' % (ast.unparse(fsd) if fsd is not None else None, ast.unparse(r[0].value) if r else None), rel, fu.lineno,
-           what='likelihood of the theta-adjusted cached model against the given data')
+    rep.ob('R-FLOW', 'get_godambe.func', not bad['func'], fmt('func', 'Inference.ll(theta_adjust * cached model, data)'), rel, fu.lineno, what='likelihood of the theta-adjusted cached model against the given data')
     rule_key(rep, prog, m, fu, 'cache', enclosing=g)
-    # bootstrap loop: loop-carried variables are additive accumulators only
-    loops = [n for n in g.body if isinstance(n, ast.For) and 'all_boot' in ast.unparse(n.iter)]
-    if len(loops) != 1:
-        raise AnalysisError('anchor vanished: bootstrap loop of get_godambe')
-    lp = loops[0]
-    fake = ast.FunctionDef(name='_loop', args=ast.arguments(posonlyargs=[], args=[], kwonlyargs=[], kw_defaults=[], defaults=[]), body=lp.body, decorator_list=[], lineno=lp.lineno)
-    an = generic.DefAnalysis(fake)
-    from sa.flow import Engine
-    Engine(an).run_function(fake, an.initial())
-    carried = set(an.findings)
-    tnames = names_in(lp.target)
-    carried -= tnames
-    rep.ob('R-ORD', 'get_godambe bootstrap loop', carried == {'J', 'cU'}, 'loop-carried variables: %s' % sorted(carried), rel, lp.lineno,
+    rep.ob('R-ORD', 'get_godambe bootstrap loop', not bad['ord'], fmt('ord', 'J and cU are sums over the bootstraps of a term of that bootstrap'), rel, g.lineno,
            what='only the accumulators J and cU are carried between bootstraps')
-    for acc in sorted(carried):
-        ups = [n for n in lp.body if (isinstance(n, ast.Assign) and ast.unparse(n.targets[0]) == acc) or (isinstance(n, ast.AugAssign) and ast.unparse(n.target) == acc)]
-        ok = len(ups) == 1
-        if ok:
-            u = ups[0]
-            if isinstance(u, ast.AugAssign):
-                ok = isinstance(u.op, ast.Add) and not (names_in(u.value) & carried)
-            else:
-                v = u.value
-                ok = isinstance(v, ast.BinOp) and isinstance(v.op, ast.Add) and ((ast.unparse(v.left) == acc and not (names_in(v.right) & carried)) or
-                                                                             (ast.unparse(v.right) == acc and not (names_in(v.left) & carried)))
-        rep.ob('R-ORD', 'get_godambe accumulator %s' % acc, ok, '; '.join(ast.unparse(u) for u in ups), rel, ups[0].lineno if ups else lp.lineno,
-               what='accumulator updated as X = X + term(bootstrap): order independent')
-    # each bootstrap pairs with its own theta adjustment
-    okz = isinstance(lp.iter, ast.Call) and ('zip(all_boot, boot_theta_adjusts)' in ast.unparse(lp.iter))
-    rep.ob('R-IDX', 'get_godambe bootstrap loop', okz, 'iterates %s' % ast.unparse(lp.iter), rel, lp.lineno, what='bootstraps zipped with their theta adjustments')
-    # normalisation exactly once
     for acc in ('J', 'cU'):
-        norm = [n for n in g.body if isinstance(n, ast.Assign) and ast.unparse(n.targets[0]) == acc and isinstance(n.value, ast.BinOp) and isinstance(n.value.op, ast.Div)]
-        ok = len(norm) == 1 and ast.unparse(norm[0].value) == '%s / len(all_boot)' % acc and norm[0].lineno > lp.lineno
-        rep.ob('R-ALG', 'get_godambe %s normalisation' % acc, ok, '; '.join(ast.unparse(n) for n in norm), rel, norm[0].lineno if norm else g.lineno,
+        rep.ob('R-ORD', 'get_godambe accumulator %s' % acc, not [b for b in bad['ord'] if acc in b], fmt('ord', '%s = zeros + sum of its term' % acc), rel, g.lineno,
+               what='accumulator updated as X = X + term(bootstrap): order independent')
+    rep.ob('R-IDX', 'get_godambe bootstrap loop', not bad['zip'], fmt('zip', 'iterates zip(all_boot, boot_theta_adjusts)'), rel, g.lineno, what='bootstraps zipped with their theta adjustments')
+    for acc in ('J', 'cU'):
+        rep.ob('R-ALG', 'get_godambe %s normalisation' % acc, not [b for b in bad['norm'] if ' %s = ' % acc in b], fmt('norm', '%s / len(all_boot)' % acc), rel, g.lineno,
                what='%s divided by the number of bootstraps exactly once, after the loop' % acc)
-    jt = [n for n in lp.body if isinstance(n, ast.Assign) and ast.unparse(n.targets[0]) == 'J_temp']
-    ok = bool(jt) and mat(jt[0].value, None) == ('outer', 'grad_temp', 'grad_temp')
-    rep.ob('R-ALG', 'get_godambe J term', ok, ast.unparse(jt[0]) if jt else '', rel, jt[0].lineno if jt else lp.lineno, what='J accumulates outer(g, g)')
-    # shapes: the score accumulator and the gradient it accumulates must have the same shape - (n,1) + (n,) would broadcast
-    # to an (n,n) matrix without any error
+    rep.ob('R-ALG', 'get_godambe J term', not bad['jterm'], fmt('jterm', 'outer(g, g) of the bootstrap gradient'), rel, g.lineno, what='J accumulates outer(g, g)')
+
     def alloc_shape(fn_, name):
         for n_ in own_nodes(fn_):
             if isinstance(n_, ast.Assign) and ast.unparse(n_.targets[0]) == name and isinstance(n_.value, ast.Call) and _last(dotted(n_.value.func)) in ('zeros', 'empty', 'ones'):
@@ -447,17 +525,10 @@ def check_assembly(rep, prog, m):
                 return tuple(ast.unparse(x) for x in a0.elts) if isinstance(a0, (ast.Tuple, ast.List)) else (ast.unparse(a0),)
         return None
     sh_g = alloc_shape(prog.func(GOD, 'get_grad'), 'grad')
-    sh_c = alloc_shape(g, 'cU')
-    acc = [n for n in own_nodes(g) if isinstance(n, ast.Assign) and ast.unparse(n.targets[0]) == 'cU' and isinstance(n.value, ast.BinOp) and isinstance(n.value.op, ast.Add)]
-    oksh = sh_g is not None and sh_c is not None and sh_g == sh_c and len(acc) == 1 and {ast.unparse(acc[0].value.left), ast.unparse(acc[0].value.right)} == {'cU', 'grad_temp'}
-    rep.ob('R-SHAPE', 'get_godambe score accumulator', oksh, 'get_grad allocates %s; cU is allocated %s and accumulates grad_temp' % (sh_g, sh_c), rel, g.lineno,
+    rep.ob('R-SHAPE', 'get_godambe score accumulator', sh_g == ('len(p0)', '1') and not bad['shape'], 'get_grad allocates %s; %s' % (sh_g, fmt('shape', 'cU is allocated (len(p0), 1)')), rel, g.lineno,
            what='the summed score has the shape of one gradient (no silent broadcasting of a column against a flat vector)')
-    gd = [n for n in g.body if isinstance(n, ast.Assign) and ast.unparse(n.targets[0]) == 'godambe']
-    got = mat(gd[0].value, singles) if gd else None
-    rep.ob('R-ALG', 'get_godambe G', got == ('dot', ['hess', ('inv', 'J'), 'hess']), 'godambe = %s' % (got,), rel, gd[0].lineno if gd else g.lineno, what='G = H J^-1 H')
-    rets = [ast.unparse(n.value) for n in own_nodes(g) if isinstance(n, ast.Return)]
-    rep.ob('R-FLOW', 'get_godambe return', rets == ['hess', '(godambe, hess, J, cU)'] or rets == ['hess', 'godambe, hess, J, cU'], 'returns %s' % rets, rel, g.lineno,
-           what='returns (G, H, J, cU), or H alone for just_hess')
+    rep.ob('R-ALG', 'get_godambe G', not bad['G'], fmt('G', 'godambe = H . inv(J) . H'), rel, g.lineno, what='G = H J^-1 H')
+    rep.ob('R-FLOW', 'get_godambe return', not bad['ret'], fmt('ret', 'returns (G, H, J, cU), or H alone for just_hess'), rel, g.lineno, what='returns (G, H, J, cU), or H alone for just_hess')
     # consumers
     lrt = prog.func(GOD, 'LRT_adjust')
     s = single_assignments(lrt)
